@@ -1467,6 +1467,21 @@ def r24_count_protocol(facts):
                     c.check(rec_ok, "count:descend-once", loc(b, n2),
                             "descent into a child only when its previous count was 0 (no double counting below shared nodes)",
                             "descent below a child is not guarded by `previous count == 0`: nodes below a shared child are counted once per path")
+                    # the descent is under the same tracked guard as the increment: nothing flows through an untracked child,
+                    # so the nodes below it must not be told to expect a delivery
+                    tguard = False
+                    for cond2, truth2 in path_facts(ctx2):
+                        cnd2 = peel(cond2)
+                        if cnd2.get("k") == "VarRef" and cnd2["v"] in binds and binds[cnd2["v"]][0] == "let" and isinstance(binds[cnd2["v"]][1], dict):
+                            cnd2 = peel(binds[cnd2["v"]][1])
+                        if truth2 and cnd2.get("k") == "Call" and callee(cnd2) == CELL + "get":
+                            r4, ch4 = field_chain(cnd2["args"][0])
+                            if ch4 == ["is_tracked"] and var_of(r4) == owner:
+                                tguard = True
+                    c.check(tguard, "count:descend-tracked", loc(b, n2),
+                            "descent only through children that are tracked (the guard of the increment)",
+                            "the counting descends through a child whether or not it is tracked: nodes below an untracked child are told to wait for a delivery "
+                            "that never comes (their derivative never runs, the counts stay behind)")
             if rec_ok is None:
                 c.bad("count:descend-once", loc(b, n), "no descent into tracked children found")
         else:
